@@ -1,9 +1,15 @@
 (* Extraction of the C14 models (ExtrOcamlBasic only; N/Z/nat/positive stay Coq datatypes). *)
-From Verif Require Import CPrims CppPrims.
+From Verif Require Import CPrims CppPrims PyPrims.
 Require Extraction ExtrOcamlBasic.
 Extraction Language OCaml.
 Extraction "model.ml" saturate_fragment copy_bits get_bits set_uxx set_ixx set_bit get_uxx get_ixx get_bit
   set_f32 set_f64 get_f32 get_f64 set_f16 get_f16 f16_pack f16_unpack
   sp_bits offset_bytes_ceil subspan subspan_bytes subspan2 copyTo sp_saturate getBits setZeros padAndMoveToAlignment
   cpp_set_bit cpp_set_uxx cpp_set_ixx cpp_get_uxx cpp_get_bit cpp_get_ixx cpp_set_f16 cpp_set_f32 cpp_set_f64 cpp_get_f16 cpp_get_f32 cpp_get_f64
-  align_offset_to add_offset.
+  align_offset_to add_offset
+  ser_new ser_buffer skip_bits add_unaligned_bit pad_to_alignment add_unaligned_bytes add_aligned_bytes add_aligned_unsigned
+  add_unaligned_unsigned add_aligned_signed add_unaligned_signed add_aligned_u8 add_aligned_u16 add_aligned_u32 add_aligned_u64
+  add_aligned_ixx add_aligned_array_of_bits add_unaligned_array_of_bits ser_fork_bytes ser_join
+  des_remaining des_skip_bits des_pad_to_alignment fetch_aligned_bytes fetch_unaligned_bytes fetch_aligned_unsigned
+  fetch_unaligned_unsigned fetch_aligned_signed fetch_unaligned_signed fetch_unaligned_bit fetch_aligned_uxx fetch_aligned_ixx
+  fetch_aligned_array_of_bits fetch_unaligned_array_of_bits des_fork_bytes.
